@@ -370,6 +370,9 @@ def random_history():
         if rng.random() < 0.15:
             h.emit("save"); h.saved.append(("save", h.xl, h.cursor))
             if rng.random() < 0.5: h.emit("mask %d %d %d %d" % h.rect())
+        if k > 0 and SINK[0] == "x" and rng.random() < 0.35:
+            feat["suspend_between_rounds"] += 1
+            h.emit("suspend")
         for _ in range(rng.randint(2, 14) if k == 0 else rng.randint(0, 8)):
             h.step()
         h.emit("flush"); h.flushed()
@@ -580,6 +583,68 @@ def small_screen_history():
     return h.ops
 
 
+def pen_variant(p):
+    """A pen that shares attribute values with pen `p`: the same, a part of it, more, or one value changed."""
+    items = [] if p in ("-", "NULL", "NONE") else p.split(",")
+    r = rng.random()
+    if r < 0.40 or not items:
+        feat["suspend_same_pen"] += 1
+        return p if items else gen_pen(allow_null=False)
+    have = {it.split("=")[0] for it in items}
+    fresh = [it for it in gen_pen(allow_null=False).split(",") if it != "-"]
+    if r < 0.58:
+        feat["suspend_pen_part"] += 1
+        keep = [it for it in items if rng.random() < 0.6]
+        return ",".join(keep) if keep else "-"
+    if r < 0.78:
+        feat["suspend_pen_more"] += 1
+        return ",".join(items + [it for it in fresh if it.split("=")[0] not in have])
+    feat["suspend_pen_one_changed"] += 1
+    k = rng.randrange(len(items))
+    name = items[k].split("=")[0]
+    repl = [it for it in fresh if it.split("=")[0] == name]
+    out = items[:k] + repl + items[k + 1:]
+    return ",".join(out) if out else "-"
+
+
+def suspend_history():
+    """Two or three frames flushed through the real xterm driver with the terminal paused and resumed in between
+    (tickit_term_pause / tickit_term_resume, as around SIGTSTP): the first cells of a frame are drawn in a pen that
+    shares attribute values with the last pen the previous frame used - what the terminal renders with after the
+    resume is the "prior terminal pen" of that flush."""
+    L = rng.choice([1, 2, 2, 3]); C = rng.choice([3, 4, 5, 6, 8, 10])
+    sizes[f"{L}x{C}"] += 1
+    feat["suspend_history"] += 1
+    h = Hist(L, C)
+    tl, tc = (L, C) if rng.random() < 0.6 else (L + rng.choice([0, 1]), C + rng.choice([0, 1, 3]))
+    h.emit(gen_xterm(tl, tc))
+    term_pen = h.ops[-1].split()[5]
+    last = None if term_pen == "NONE" else term_pen
+    for k in range(rng.choice([2, 2, 3])):
+        if k > 0 and rng.random() < 0.9:
+            h.emit("suspend")
+            if rng.random() < 0.1: h.emit("suspend")
+        first = pen_variant(last) if last is not None else gen_pen(allow_null=False)
+        h.emit(f"setpen {first}")
+        # the first cells of the frame: line 0 from column 0 (or a little further right)
+        c0 = rng.choice([0, 0, 0, 1])
+        r = rng.random()
+        if r < 0.45: h.emit(f"text_at 0 {c0} {hexs(''.join(rng.choice(ASCII) for _ in range(rng.randint(1, 3))).encode())}")
+        elif r < 0.65: h.emit(f"erase_at 0 {c0} {rng.randint(1, C)}")
+        elif r < 0.80: h.emit(f"char_at 0 {c0} {rng.choice(CHAR_W1)}")
+        else: h.emit(f"hline 0 {c0} {min(C - 1, c0 + rng.randint(0, 2))} {rng.randint(1, 3)} {rng.randint(0, 3)}")
+        for _ in range(rng.choice([0, 0, 1, 2, 4])):
+            h.step()
+        # the last cells of the frame: the end of the last line, in a pen that is known
+        last = gen_pen(allow_null=False) if rng.random() < 0.6 else first
+        h.emit(f"setpen {last}")
+        if rng.random() < 0.7: h.emit(f"text_at {L - 1 - h.xl[0]} {C - 2 - h.xl[1]} {hexs(''.join(rng.choice(ASCII) for _ in range(2)).encode())}")
+        else: h.emit(f"erase_at {L - 1 - h.xl[0]} {C - 2 - h.xl[1]} 2")
+        h.emit("flush"); h.flushed()
+    sink_done()
+    return h.ops
+
+
 def exhaustive():
     """Every program of <= 3 drawing operations over a reduced alphabet on a 2x6 buffer, six terminal configurations."""
     alpha = [
@@ -632,7 +697,11 @@ else:
     S = 300 if a.tier == "quick" else 1800
     for _ in range(S):
         lines.extend(small_screen_history())
-    info = {"histories": N + W + E + S, "wide_histories": W, "edge_histories": E, "small_screen_histories": S}
+    P = 220 if a.tier == "quick" else 1300
+    for _ in range(P):
+        lines.extend(suspend_history())
+    info = {"histories": N + W + E + S + P, "wide_histories": W, "edge_histories": E, "small_screen_histories": S,
+            "suspend_histories": P}
 open(a.out, "w").write("\n".join(lines) + "\n")
 info.update({"ops": len(lines), "op_mix": dict(stats.most_common()), "text_kinds": dict(textkinds), "features": dict(feat),
              "buffer_sizes": dict(sizes.most_common(8))})
